@@ -227,6 +227,12 @@ def run_c15(sc, q, rnd):
     sc.validate("handshake", hs, "MailboxPollTrace", dict(MaxStale=1, MaxPolls=100000, PromptReload=False),
                 constraints=("Track", "Judge"), key_fn=lambda c: (len(c["wire"]), c["stale"], c["requests"], c["result"]),
                 sample_fn=lambda c: c["stale"] == 1)
+    # beyond the listed properties: the object dictionary list of a conforming server, in one or several fragments
+    # (conformance only: a difference is reported as a divergence, see DESIGN 11.3 O6)
+    il = [dict(id=f"il{i}", op="info_list", objects=n, mailbox_size=m)
+          for i, (n, m) in enumerate([(3, 128), (40, 128), (60, 128), (100, 64), (40, 32), (300, 1024), (700, 256)][:7 if q else 7])]
+    iltrace = sc.run_cases("infolist", il, binary="vsim2")
+    sc.validate("infolist", iltrace, "SdoInfoTrace", {}, constraints=(), key_fn=lambda c: (c["case"]["objects"], c["case"]["mailbox_size"], c.get("result")))
     return sc.finish(
         "one case = one SDO call on the simulated CoE server; distinct by (direction, fault, mailbox size, server mode, object "
         "size, result, messages exchanged, transfers, complete access)",
